@@ -6,6 +6,9 @@ SPEC = {
         {"name": "stream", "pkg": PKG, "kind": "rapid", "run": "^TestVerifC14Stream$",
          "quick": {"checks": 2000, "shards": 4, "timeout": 300},
          "thorough": {"checks": 20000, "shards": 16, "timeout": 1800}},
+        {"name": "blocked-write", "pkg": PKG, "kind": "rapid", "run": "^TestVerifC14BlockedWrite$",
+         "quick": {"checks": 300, "shards": 2, "timeout": 300},
+         "thorough": {"checks": 3000, "shards": 8, "timeout": 1800}},
         {"name": "reject", "pkg": PKG, "kind": "plain", "run": "^TestVerifC14Reject$",
          "quick": {"shards": 2, "timeout": 300},
          "thorough": {"shards": 8, "timeout": 1500}},
